@@ -2,7 +2,12 @@
 
 package service
 
-import "github.com/mdzio/go-mqtt/message"
+import (
+	"fmt"
+
+	"github.com/mdzio/go-mqtt/auth"
+	"github.com/mdzio/go-mqtt/message"
+)
 
 // C11: nothing happens on a connection until a valid CONNECT has been accepted.
 
@@ -140,4 +145,65 @@ func H11_connect_fields() {
 		auth = "mockFailure"
 	}
 	vrtFirstPacket(specEncode(&p), auth)
+}
+
+// vrtCredAuth accepts exactly one user name / password pair.
+type vrtCredAuth struct{}
+
+func (vrtCredAuth) Authenticate(id string, cred interface{}) error {
+	pw, _ := cred.(string)
+	if id == "u" && pw == "p" {
+		return nil
+	}
+	return fmt.Errorf("bad credentials")
+}
+
+var vrtCredAuthRegistered bool
+
+// H11_credentials: an authenticator whose verdict depends on the credentials.
+// A CONNECT is accepted exactly when ITS OWN user name and password are the
+// right ones - whatever earlier connections presented (nothing of an earlier
+// CONNECT may be carried over into the decision).
+func H11_credentials() {
+	if !vrtCredAuthRegistered {
+		auth.Register("vrtcred", vrtCredAuth{})
+		vrtCredAuthRegistered = true
+	}
+	b := vrtBroker("vrtcred")
+	good := vrtConnectPkt([]byte("g"), true)
+	good.CFlags |= 0xC0
+	good.User, good.Pass = []byte("u"), []byte("p")
+	goodFirst := vrtBool("good_one_first")
+	if goodFirst {
+		_, ack := b.connect(good)
+		vrtAssert("C11.accept_connack", vrtIsConnack(ack, false, 0))
+	}
+	// the connection under test: anonymous, or with a symbolic user name / password
+	p := vrtConnectPkt([]byte("c"), true)
+	kind := vrtChoice("credentials", 3)
+	ok := false
+	switch kind {
+	case 1:
+		p.CFlags |= 0x80
+		p.User = []byte{vrtByte("user")}
+	case 2:
+		p.CFlags |= 0xC0
+		u, w := vrtByte("user"), vrtByte("pass")
+		p.User, p.Pass = []byte{u}, []byte{w}
+		ok = vrtConcretize(vrtIteInt(vrtAnd(u == 'u', w == 'p'), 1, 0)) == 1
+	}
+	c, ack := b.connect(p)
+	if ok {
+		vrtAssert("C11.accept_connack", vrtIsConnack(ack, false, 0))
+		vrtReach("C11.accepted_with_credentials")
+	} else {
+		vrtAssert("C11.badauth_connack_4", vrtIsConnack(ack, false, 4))
+		vrtAssert("C11.refused_closed", c.isClosed())
+		wantSessions := 0
+		if goodFirst {
+			wantSessions = 1
+		}
+		vrtAssert("C11.refused_no_session", b.svr.sessMgr.Count() == wantSessions)
+		vrtReach("C11.refused_credentials")
+	}
 }
